@@ -39,6 +39,20 @@ Theorem C35_progress_partial : forall fl sh s, idleb (flush fl sh s) = true.
 Proof. exact flush_idle. Qed.
 Print Assumptions C35_progress_partial.
 
+(** Progress under ANY size cut (either model, any snapshot however stale): with
+    [work s] = |peer pending| + |broadcast pending| + |queued cancels| as the measure, a send
+    removes at least as much work as the number of candidates it accepts, so it never adds
+    work and every send that accepts at least one candidate strictly approaches idle
+    ([work s = 0] is [idle s]).  Still missing for the full progress statement: that a
+    non-empty cut of a FRESH snapshot always accepts at least one candidate. *)
+Theorem C35_send_progress : forall fl sh cs pes bes s,
+  let '(pp1, ps1, okp, badp) := mark pes (pp s) (ps s) in
+  let '(bp1, bs1, okb, badb) := mark bes (bp s) (bs s) in
+  let '(cn1, okc, badc) := mark_cancels cs (cn s) in
+  (work (fst (send_result fl sh cs pes bes s)) + (length okp + length okb + length okc) <= work s)%nat.
+Proof. exact send_work. Qed.
+Print Assumptions C35_send_progress.
+
 (** ---------- the current code ---------- *)
 (** finding C35-1: want c; send; cancel c; want c; cancel c; send (the last send may well
     carry the cancel that was snapshotted before "want c; cancel c" ran inside the
